@@ -364,25 +364,28 @@ fn term_state(fresh_weight: u32) -> BoxedStrategy<TermState> {
     .boxed()
 }
 
-/// states of the enumerated tables
-fn table_states() -> Vec<TermState> {
-    let st = |slot, font, dcs, modes| TermState { slot, font, dcs, modes };
-    vec![
-        st(1, 0, false, 0),  // built-in page 1 selected
-        st(2, 1, false, 0),  // 256-glyph custom font selected
-        st(1, 2, false, 0),  // 512-glyph PSF1
-        st(3, 3, false, 1),  // 512-glyph PSF2, ice colours
-        st(1, 4, false, 0),  // 0xD801 glyphs
-        st(1, 6, false, 6),  // 0xE000 glyphs, insert mode + margins
-        st(2, 7, false, 56), // 0x10000 glyphs, left/right margins + origin mode + Unicode buffer
-        st(0, 8, false, 0),  // 0x20000 glyphs in slot 0 (what a fresh caret uses), nothing selected
-        st(0, 0, false, 63), // no font, every mode
-    ]
-}
-
 const STATE_WINDOWS: &[(u64, u64)] = &[(0xF8, 0x108), (0x1F8, 0x208), (0xD700, 0xE100), (0xFFF8, 0x1_0008), (0x1_FFF8, 0x2_0008), (0x10_FFF8, 0x11_0008)];
+/// boundaries only (states that differ from an enumerated one just by a larger font)
+const STATE_WINDOWS_EDGES: &[(u64, u64)] = &[(0xF8, 0x108), (0x1F8, 0x208), (0xD7F0, 0xD810), (0xDBF8, 0xDC08), (0xDFF0, 0xE010), (0xFFF8, 0x1_0008), (0x1_FFF8, 0x2_0008), (0x10_FFF8, 0x11_0008)];
 /// the DCS route costs ~100 KB of stream per case: narrow windows
 const STATE_WINDOWS_DCS: &[(u64, u64)] = &[(0xD7F8, 0xD808), (0xDBF8, 0xDC08), (0xDFF8, 0xE008)];
+
+/// states of the enumerated tables, each with the number windows it is combined with
+fn table_states() -> Vec<(TermState, &'static [(u64, u64)])> {
+    let st = |slot, font, dcs, modes| TermState { slot, font, dcs, modes };
+    vec![
+        (st(1, 0, false, 0), STATE_WINDOWS),        // built-in page 1 selected
+        (st(2, 1, false, 0), STATE_WINDOWS),        // 256-glyph custom font selected
+        (st(1, 2, false, 0), STATE_WINDOWS),        // 512-glyph PSF1
+        (st(3, 3, false, 1), STATE_WINDOWS),        // 512-glyph PSF2, ice colours
+        (st(1, 4, false, 0), STATE_WINDOWS),        // 0xD801 glyphs
+        (st(1, 6, false, 6), STATE_WINDOWS),        // 0xE000 glyphs, insert mode + margins
+        (st(2, 7, false, 56), STATE_WINDOWS_EDGES), // 0x10000 glyphs, left/right margins + origin mode + Unicode buffer
+        (st(0, 8, false, 0), STATE_WINDOWS_EDGES),  // 0x20000 glyphs in slot 0 (what a fresh caret uses), nothing selected
+        (st(0, 0, false, 63), STATE_WINDOWS),       // no font, every mode
+        (st(1, 5, true, 0), STATE_WINDOWS_DCS),     // 0xDC00 glyphs sent as a CTerm font DCS
+    ]
+}
 
 // ------------------------------------------------------------------------------------------------
 // (i) DECFRA
@@ -1304,7 +1307,22 @@ fn check_macro_in(c: &MacroCase, how: &str, parser: &mut ansi::Parser, buf: &mut
 // ------------------------------------------------------------------------------------------------
 
 fn main() {
+    // an invalid value aborts the worker under the UB-check profile; thousands of such cases must not each write a core file
+    unsafe {
+        let no_core = libc::rlimit { rlim_cur: 0, rlim_max: 0 };
+        libc::setrlimit(libc::RLIMIT_CORE, &no_core);
+    }
     let mut eng = Engine::new("C10");
+    // A failed UB check of the standard library is a panic that cannot unwind: the process aborts after the panic hook ran. The
+    // engine's hook would first symbolise a backtrace (~150 ms in a fresh worker); with thousands of aborting cases that is
+    // all the run does. Abort at once instead: the verdict (worker killed by SIGABRT, keyed by input class) is the same.
+    let engine_hook = std::panic::take_hook();
+    std::panic::set_hook(Box::new(move |info| {
+        if !info.can_unwind() {
+            unsafe { libc::abort() }
+        }
+        engine_hook(info)
+    }));
     eng.rule(
         "Five input families, each built from a plain model and run in worker processes. decfra: `CSI Pc;Pt;Pl;Pb;Pr $ x` on an 80x25 ANSI terminal, Pc enumerated over boundary windows \
          (quick: 0..0xFF, 0xD700..0xE0FF, 0x10FF00..0x1100FF, 2^k+-2, 2^31-1; thorough: every value 0..=0x110100) and generated over 0..=2^31-1 (plus longer digit strings), with \
@@ -1345,20 +1363,24 @@ fn main() {
     // the boundary windows again for every terminal state of the table (fonts of 256 / 512 / 0xD801 / 0xE000 / 2^16 / 2^17 glyphs in the
     // caret's slot, modes), plus one state whose font travels as a DCS (narrow windows)
     let states = table_states();
-    let per_state = window_total(STATE_WINDOWS);
-    let n_states = states.len() as u64;
+    let total: u64 = states.iter().map(|(_, w)| window_total(w)).sum();
     eng.enumerated_with_class(
         PartCfg::new("decfra_states", 0, 0).isolated().heap_cap(512 << 20).shrink_budget(400).exhaustive(true).threads(1),
-        n_states * per_state + window_total(STATE_WINDOWS_DCS),
-        move |i| {
-            if i < n_states * per_state {
-                // value-major order: consecutive cases use different states (the fonts are pooled per worker)
-                let state = states[(i % n_states) as usize].clone();
-                Decfra { pc: window_value(STATE_WINDOWS, i / n_states), pt: 1, pl: 1, pb: 2, pr: 3, shape: 0, pre: 0, post: 0, state }
-            } else {
-                let state = TermState { slot: 1, font: 5, dcs: true, modes: 0 };
-                Decfra { pc: window_value(STATE_WINDOWS_DCS, i - n_states * per_state), pt: 2, pl: 2, pb: 2, pr: 3, shape: 1, pre: 0, post: 0, state }
+        total,
+        move |mut i| {
+            for (k, (state, w)) in states.iter().enumerate() {
+                let n = window_total(w);
+                if i < n || k + 1 == states.len() {
+                    let state = state.clone();
+                    return if state.dcs {
+                        Decfra { pc: window_value(w, i), pt: 2, pl: 2, pb: 2, pr: 3, shape: 1, pre: 0, post: 0, state }
+                    } else {
+                        Decfra { pc: window_value(w, i), pt: 1, pl: 1, pb: 2, pr: 3, shape: 0, pre: 0, post: 0, state }
+                    };
+                }
+                i -= n;
             }
+            unreachable!("table_states is not empty")
         },
         check_decfra,
         |c| format!("source=decfra{}", state_key(&c.state)),
